@@ -145,7 +145,7 @@ def gen_stream(rng, max_notes=120):
     """random single-player stream, deliberately ill-formed"""
     cols = rng.randint(1, 6)
     rows = rng.choice([2, 4, 8, 16, 32, 64])
-    dens = rng.choice([[1], [1, 2], [1, 2, 4], [3, 4], [48]])
+    dens = rng.choice([[1], [1, 2], [1, 2, 4], [3, 4], [48], [64], [96, 192], [256], [5, 7], [384], [48, 64]])
     palette = rng.choice(["123M", "1234M", "1234AFKLM", "23", "243", "12L3", "1234AFKLM"])
     weights = rng.choice([0.15, 0.3, 0.6])
     from fractions import Fraction
